@@ -190,6 +190,26 @@ func runC04(cx *CheckCtx) {
 		}
 	}
 	// ---- delete path
+	// putMeta: the meta flag of the id is written exactly when metaOnChain is set
+	if m := cx.method("container", "PutMeta"); m != nil {
+		a := cx.run(m)
+		flag := paramTerm(a.tb, m, "metaOnChain")
+		var mPut *Site
+		for _, s := range a.RealEffects() {
+			if s.Effect == "put" && keyFamily(s.Args[1]) == "m" {
+				mPut = s
+			}
+		}
+		ok := mPut != nil && a.holdsAt(mPut.In, a.litB(flag))
+		if ok {
+			for _, ex := range a.Exits() {
+				if !a.holdsAt(ex.State, a.eLit(mPut), -a.litB(flag)) {
+					ok = false
+				}
+			}
+		}
+		cx.decide(ok, "paired-index", "container.PutMeta/flag", "the meta flag is written exactly when metaOnChain is set", "putMeta writes the meta flag for metaOnChain = false (or not for true): object meta submissions are accepted/refused for the wrong containers", w.pos(m.Fn.Pos()))
+	}
 	// list / containersOf: the owner's ids for a non-empty owner, all ids for an empty one
 	if m := cx.method("container", "ContainersOf"); m != nil {
 		a := cx.run(m)
